@@ -314,7 +314,12 @@ func (w *nextWalker) run(fr *nframe, b, from *ssa.BasicBlock, idx int, st *nstat
 			}
 		case *ssa.FieldAddr:
 			if w.val(fr, x.X).kind == nvSelf {
-				fr.env[x] = &nval{kind: nvFAddr, fld: fieldOf(x)}
+				if _, nested := fieldOf(x).Type().Underlying().(*types.Struct); nested {
+					// a struct embedded by value in the reader (its counters grouped in a `pos` struct): still the reader
+					fr.env[x] = &nval{kind: nvSelf}
+				} else {
+					fr.env[x] = &nval{kind: nvFAddr, fld: fieldOf(x)}
+				}
 			}
 		case *ssa.UnOp:
 			switch x.Op {
